@@ -1,9 +1,11 @@
-import RP.Lemmas.C01.Classes
+import RP.Lemmas.C01.Lift
 /-! # C01 — hand strength ordering is exactly the poker hand ranking (both deck configurations)
 
 Model: `RP.Eval` (`strength cfg bits`, comparison key `strengthKey`, `compareHands`), written as
 `evalA cfg (α h)` where `α h` = (per-rank count vector, rank mask, rank mask of the flush suit).
 Specification: `RP.Spec.Poker` (`value5`, `best5`; on classes `specA`).
+Main theorem: `C01_strength_order` — for all 5..7-card hands of the configured deck,
+`Strength::cmp` (model) = comparison of the best five-card poker hands (rules).
 The category order and kicker counts the model uses are the generated `RP.Gen.rankingOrder*`,
 `RP.Gen.nKickers`; the rules' order is written by hand in the specification. -/
 namespace RP.C01
@@ -12,12 +14,11 @@ open RP.Bits RP.Eval RP.Spec.Poker
 /-- **C01_table** (uses `native_decide` in `RP.Lemmas.C01.Tab*`): on every class — count vector of
     13 ranks with digits ≤ 4 and 5..7 cards, flush rank set of 5..7 ranks — the evaluator model
     returns a well-formed `(Ranking, Kickers)` whose translation into the rules' value space is the
-    rules' best-five value of the class; a non-straight flush keeps only its top card
-    (`coarse`, the known finding KF-C01-flush).  73 775 count vectors + 4 719 flush sets per deck,
+    rules' best-five value of the class.  73 775 count vectors + 4 719 flush sets per deck,
     walked by `forallCV` / `forallF` which are proved to visit every valid class. -/
 theorem C01_table (cfg : Cfg) (c : Cls) (hv : ValidCls c) :
     (evalA? cfg c).isSome = true ∧ wfRes (evalA cfg c) = true ∧
-      specOf cfg (evalA cfg c) = coarse cfg (specA cfg c) :=
+      specOf cfg (evalA cfg c) = specA cfg c :=
   table_cls cfg c hv
 
 /-- the walkers are complete: every valid count vector / flush set is a row of the table -/
@@ -46,36 +47,72 @@ theorem C01_variant_order (cfg : Cfg) : ∀ c1, c1 < 9 → ∀ c2, c2 < 9 →
 
 example : variantIdx .std cFullHouse > variantIdx .std cFlush ∧ variantIdx .short cFlush > variantIdx .short cFullHouse := by decide
 
-/-- **C01_order_classes**: on valid classes the engine's comparison is the rules' comparison,
-    unless the two values are non-straight flushes with equal top card and different lower cards -/
-theorem C01_order_classes (cfg : Cfg) (c1 c2 : Cls) (h1 : ValidCls c1) (h2 : ValidCls c2)
-    (hn : ¬ FlushTie cfg (specA cfg c1) (specA cfg c2)) :
+/-- **C01_order_classes**: on valid classes the engine's comparison is the rules' comparison -/
+theorem C01_order_classes (cfg : Cfg) (c1 c2 : Cls) (h1 : ValidCls c1) (h2 : ValidCls c2) :
     compare (keyA cfg (evalA cfg c1)) (keyA cfg (evalA cfg c2)) = compare (specA cfg c1) (specA cfg c2) :=
-  order_cls cfg c1 c2 h1 h2 hn
+  order_cls cfg c1 c2 h1 h2
 
-/-- … and on such pairs the engine answers `Equal` -/
-theorem C01_flush_behaviour_classes (cfg : Cfg) (c1 c2 : Cls) (h1 : ValidCls c1) (h2 : ValidCls c2)
-    (ht : FlushTie cfg (specA cfg c1) (specA cfg c2)) :
-    compare (keyA cfg (evalA cfg c1)) (keyA cfg (evalA cfg c2)) = .eq :=
-  tie_cls cfg c1 c2 h1 h2 ht
+/-- every 5..7-card subset of the configured deck (a hand word) has a valid class: the table
+    applies to every hand.  Bit-level part: `u16::from(Hand)` is the mask of non-empty nibbles,
+    nibble popcounts are the rank counts, the flush suit's rank set has 5..7 ranks. -/
+theorem C01_class_of_hand (cfg : Cfg) (h : Nat) (hv : ValidHand cfg h) : ValidCls (α h) :=
+  valid_alpha cfg h hv
+
+/-- the evaluator never panics on a 5..7-card hand -/
+theorem C01_total (cfg : Cfg) (h : Nat) (hv : ValidHand cfg h) : (strength? cfg h).isSome = true :=
+  strength_total cfg h hv
+
+/-- **C01_strength_order_classes** (full statement relative to the rules on classes): for all
+    5..7-card hands of the configured deck, `Strength::cmp` answers as the rules compare the best
+    five-rank selections of the two hands (`specA`: maximum of the rules' value over all
+    five-element sub-multisets of the ranks, and over the five-subsets of the flush suit). -/
+theorem C01_strength_order_classes (cfg : Cfg) (h1 h2 : Nat) (v1 : ValidHand cfg h1) (v2 : ValidHand cfg h2) :
+    compareHands cfg h1 h2 = compare (specA cfg (α h1)) (specA cfg (α h2)) :=
+  order_hands_abs cfg h1 h2 v1 v2
+
+/-- **C01_lift**: the best five-card hand (maximum of `value5` over all five-card subsets of the
+    concrete card set) is the rules' value of the hand's class: every five-element rank
+    sub-multiset is realised by a five-card subset, a subset is of one suit iff it lies in the
+    (unique) flush suit, and one suit only raises the value of five ranks -/
+theorem C01_lift (cfg : Cfg) (h : Nat) (hv : ValidHand cfg h) :
+    best5 (Cfg.isShort cfg) h = specA cfg (α h) :=
+  lift cfg h hv
+
+/-- **C01_strength_order** — the property, in full: for any two sets of five to seven distinct
+    cards of the configured deck, comparing their evaluated strengths (`Strength::cmp`, derived
+    order with the generated variant order of the build) gives the same answer as comparing
+    their best five-card poker hands under the rules of that deck. -/
+theorem C01_strength_order (cfg : Cfg) (h1 h2 : Nat) (v1 : ValidHand cfg h1) (v2 : ValidHand cfg h2) :
+    compareHands cfg h1 h2 = compare (best5 (Cfg.isShort cfg) h1) (best5 (Cfg.isShort cfg) h2) := by
+  rw [lift cfg h1 v1, lift cfg h2 v2]
+  exact order_hands_abs cfg h1 h2 v1 v2
+
+/-- **C01_flush_excludes**: ≤ 7 cards with ≥ 5 in one suit contain neither quads nor a full
+    house (the evaluator run without the flush information finds neither), so trying the flush
+    first is sound in both deck orders -/
+theorem C01_flush_excludes (cfg : Cfg) (h F : Nat) (hv : ValidHand cfg h) (hF : (α h).fl = some F) :
+    (evalA cfg (clsN (α h).cv)).1.cat ≠ cFourOAK ∧ (evalA cfg (clsN (α h).cv)).1.cat ≠ cFullHouse :=
+  flush_excludes cfg h F hv hF
+
+/-- **C01_suit_blind**: relabeling the four suits by any of the 24 permutations
+    (`RP.Gen.permExhaust`) changes neither the validity of a hand nor its strength -/
+theorem C01_suit_blind (cfg : Cfg) (π : List Nat) (hπ : π ∈ RP.Gen.permExhaust) (h : Nat) (hv : ValidHand cfg h) :
+    ValidHand cfg (relabel π h) ∧ strength cfg (relabel π h) = strength cfg h :=
+  ⟨validHand_relabel cfg π hπ h hv, strength_relabel cfg π hπ h hv⟩
 
 /-- As Ks Qs Js 9s and Ah Kh Qh Jh 8h -/
 def witnessA : Nat := 2^51 + 2^47 + 2^43 + 2^39 + 2^31
 def witnessB : Nat := 2^50 + 2^46 + 2^42 + 2^38 + 2^26
 
-/-- **known finding KF-C01-flush, witness**: the engine calls these two flushes equal, the rules
-    do not — so the unrestricted statement of C01 is false for the code as it is -/
-theorem C01_flush_witness (cfg : Cfg) :
-    compareHands cfg witnessA witnessB = .eq ∧
+/-- the repaired flush tie: the nine-high kicker beats the eight-high one, in the model as in the rules -/
+theorem C01_flush_kickers_example (cfg : Cfg) :
+    compareHands cfg witnessA witnessB = .gt ∧
     compare (best5 (Cfg.isShort cfg) witnessA) (best5 (Cfg.isShort cfg) witnessB) = .gt := by
   cases cfg <;> decide
 
-theorem C01_full_statement_fails (cfg : Cfg) :
-    ¬ ∀ h1 h2, compareHands cfg h1 h2 = compare (best5 (Cfg.isShort cfg) h1) (best5 (Cfg.isShort cfg) h2) := by
-  intro h
-  have := C01_flush_witness cfg
-  rw [h witnessA witnessB] at this
-  have e : Ordering.eq = Ordering.gt := this.1.symm.trans this.2
-  cases e
+-- non-vacuity: the two flushes are valid hands of both decks; relabeling spades→hearts maps one suit to the other
+example : ValidHand .std witnessA ∧ ValidHand .short witnessB := by unfold ValidHand; decide
+example : relabel [3, 2, 1, 0] witnessA = 2^48 + 2^44 + 2^40 + 2^36 + 2^28 := by decide
+example : (α witnessA).fl = some (2^12 + 2^11 + 2^10 + 2^9 + 2^7) := by decide
 
 end RP.C01
